@@ -150,6 +150,38 @@ def run(ctx):
         cmdp = ("param", 1, pn.local_name(1))
         spp = ("param", 4, pn.local_name(4))
 
+        is_sp = lambda t: M.peel(M.strip(t)) == spp or M.peel(t) == spp
+
+        def longest_dir(t):
+            """max over split_path(search_path) of len(dir): .map(len).max().unwrap_or(0) or .fold(0, |m, d| m.max(d.len()))"""
+            t = M.noref(t)
+            def from_split(x):
+                x = M.noref(x)
+                return x[0] == "call" and x[1] == "posix::split_path" and (M.peel(M.strip(x[2][0])) == spp or M.contains(x[2][0], lambda u: u[0] == "downcast" and u[2] == "Some" and is_sp(u[1])))
+            def is_max(m):
+                m = M.noref(m)
+                return m[0] == "call" and m[1] == "std::iter::Iterator::max" and m[2][0][0] == "call" and m[2][0][1] == "std::iter::Iterator::map" \
+                    and m[2][0][2][1] == ("fnitem", "std::ffi::OsStr::len") and from_split(m[2][0][2][0])
+            if t[0] == "call" and t[1] == "std::option::Option::<T>::unwrap_or" and const_of(t[2][1]) == 0:
+                return is_max(t[2][0])
+            if t[0] == "phi" and len(t[1]) == 2:
+                # the same written out: Some(m) => m, None => 0
+                zs = [x for x in t[1] if const_of(x) == 0]
+                ps = [M.noref(x) for x in t[1] if const_of(x) != 0]
+                return len(zs) == 1 and len(ps) == 1 and ps[0][0] == "field" and ps[0][2] == "0" and ps[0][1][0] == "downcast" and ps[0][1][2] == "Some" and is_max(ps[0][1][1])
+            if t[0] == "call" and t[1] == "std::iter::Iterator::fold" and len(t[2]) == 3 and const_of(t[2][1]) == 0 and from_split(t[2][0]):
+                cl = t[2][2]
+                if cl[0] == "agg" and cl[1][0] == "closure" and cl[1][1] in prog.fns:
+                    cf = prog.fns[cl[1][1]]
+                    r_ = M.noref(M.Terms(cf).local(0))
+                    accp, dirp = ("param", 2, cf.local_name(2)), ("param", 3, cf.local_name(3))
+                    if r_[0] == "call" and r_[1] in ("std::cmp::Ord::max", "std::cmp::max", "core::cmp::max") and len(r_[2]) == 2:
+                        xs = [M.noref(x) for x in r_[2]]
+                        isacc = lambda x: x == accp
+                        islen = lambda x: x[0] == "call" and x[1] in ("std::ffi::OsStr::len",) and M.peel(x[2][0]) == dirp
+                        return (isacc(xs[0]) and islen(xs[1])) or (isacc(xs[1]) and islen(xs[0]))
+            return False
+
         def lin(t, prev):
             """linear form {L, M, const} of a capacity term; None if unrecognised"""
             t = M.noref(t)
@@ -167,12 +199,8 @@ def run(ctx):
                 return {k: a.get(k, 0) + b.get(k, 0) for k in set(a) | set(b)}
             if t[0] == "call" and t[1] in ("std::ffi::OsStr::len", "std::ffi::OsString::len") and M.strip(t[2][0]) == cmdp:
                 return {"L": 1}
-            if t[0] == "call" and t[1] == "std::option::Option::<T>::unwrap_or" and const_of(t[2][1]) == 0:
-                m = t[2][0]
-                if m[0] == "call" and m[1] == "std::iter::Iterator::max" and m[2][0][0] == "call" and m[2][0][1] == "std::iter::Iterator::map" \
-                        and m[2][0][2][1] == ("fnitem", "std::ffi::OsStr::len") and m[2][0][2][0][0] == "call" and m[2][0][2][0][1] == "posix::split_path" \
-                        and M.noref(M.strip(m[2][0][2][0][2][0])) == spp:
-                    return {"M": 1}
+            if longest_dir(t):
+                return {"M": 1}
             return None
         some_e = variant_edges(pn, T, lambda t: t == spp, 1, [0, 1], "std::option::Option<")
         base = [d for d in defs if not dominated_by_edges(pn, d[0], some_e)]
@@ -185,32 +213,8 @@ def run(ctx):
         if cap_no is None or cap_search is None:
             # second way: evaluate the capacity expression once under `search_path == None` and once under `Some`, whatever locals it is
             # spread over (e.g. `let dir_room = match search_path { Some(p) => 1 + longest(p), None => 0 }; cmd.len() + 1 + dir_room`)
-            is_sp = lambda t: M.peel(M.strip(t)) == spp or M.peel(t) == spp
             some_all = variant_edges(pn, T, is_sp, 1, [0, 1], "std::option::Option<")
             none_all = variant_edges(pn, T, is_sp, 0, [0, 1], "std::option::Option<")
-
-            def longest_dir(t):
-                """max over split_path(search_path) of len(dir): .map(len).max().unwrap_or(0) or .fold(0, |m, d| m.max(d.len()))"""
-                t = M.noref(t)
-                def from_split(x):
-                    x = M.noref(x)
-                    return x[0] == "call" and x[1] == "posix::split_path" and (M.peel(M.strip(x[2][0])) == spp or M.contains(x[2][0], lambda u: u[0] == "downcast" and u[2] == "Some" and is_sp(u[1])))
-                if t[0] == "call" and t[1] == "std::option::Option::<T>::unwrap_or" and const_of(t[2][1]) == 0:
-                    m = t[2][0]
-                    return m[0] == "call" and m[1] == "std::iter::Iterator::max" and m[2][0][0] == "call" and m[2][0][1] == "std::iter::Iterator::map" \
-                        and m[2][0][2][1] == ("fnitem", "std::ffi::OsStr::len") and from_split(m[2][0][2][0])
-                if t[0] == "call" and t[1] == "std::iter::Iterator::fold" and len(t[2]) == 3 and const_of(t[2][1]) == 0 and from_split(t[2][0]):
-                    cl = t[2][2]
-                    if cl[0] == "agg" and cl[1][0] == "closure" and cl[1][1] in prog.fns:
-                        cf = prog.fns[cl[1][1]]
-                        r_ = M.noref(M.Terms(cf).local(0))
-                        accp, dirp = ("param", 2, cf.local_name(2)), ("param", 3, cf.local_name(3))
-                        if r_[0] == "call" and r_[1] in ("std::cmp::Ord::max", "std::cmp::max", "core::cmp::max") and len(r_[2]) == 2:
-                            xs = [M.noref(x) for x in r_[2]]
-                            isacc = lambda x: x == accp
-                            islen = lambda x: x[0] == "call" and x[1] in ("std::ffi::OsStr::len",) and M.peel(x[2][0]) == dirp
-                            return (isacc(xs[0]) and islen(xs[1])) or (isacc(xs[1]) and islen(xs[0]))
-                return False
 
             def lin2(t, depth=0):
                 t = M.noref(t)
